@@ -266,6 +266,7 @@ func runHist(cfg *config) error {
 		}
 		sig["tree_split_undo"] = splitUndo
 		sig["all_optout"] = small.AllOptOut
+		sig["presenceless_late_noflag"] = small.NoPresenceDoc && small.LateNoFlag
 		parked := false
 		for _, st := range small.Steps {
 			if st.Op == "Sq" {
@@ -387,9 +388,11 @@ func runHist(cfg *config) error {
 		}
 		hr := r.Fork()
 		h := hist.Generate(hr, g)
-		if mode.presence && i%3 == 2 {
+		if mode.presence && hr.Chance(1, 3) {
+			// drawn from the history's own generator: tied to i, these flags never met the small snapshot
+			// settings above (parity), and finding P16 needs all three
 			h.NoPresenceDoc = true
-			h.LateNoFlag = i%2 == 0
+			h.LateNoFlag = hr.Bool()
 		}
 		if mode.optOutSome && i%7 == 6 {
 			// every client of this history attaches WithDisableGC (an opt-out attachment: its changes
